@@ -475,6 +475,21 @@ def compare_model(lines, checks, outs):
     return mism
 
 
+def run_model(lines, jobs=14):
+    """The extracted model on all step lines; lines are dealt round-robin so that the expensive configurations
+    (which are adjacent in the plan) are spread over the workers."""
+    if len(lines) < 2 * jobs:
+        return run_driver(lines)
+    from concurrent.futures import ThreadPoolExecutor
+    parts = [lines[j::jobs] for j in range(jobs)]
+    with ThreadPoolExecutor(max_workers=jobs) as ex:
+        outs = list(ex.map(run_driver, parts))
+    res = [None] * len(lines)
+    for j, o in enumerate(outs):
+        res[j::jobs] = o
+    return res
+
+
 # ------------------------------------------------------------------ plans
 def construction_configs(ctx):
     cf = [(3, l) for l in range(1, 6)] + [(4, l) for l in range(1, 12)] + [(5, l) for l in (1, 2, 3)]
@@ -588,7 +603,10 @@ def run(ctx, proof):
         variant = ("id", 1)     # compare against the scheme the positive theorems are about
     all_lines, all_checks, owners = [], [], []
     hist_replays = []
+    import time as _time
+    timing = {}
     for (n, lim, reps, maxlen) in history_plan(ctx):
+        _t0 = _time.time()
         st, m = impl_construct(n, lim, False)
         if st != "ok":
             ctx.count("history_skipped_unconstructible", f"{n},{lim}", 2 * reps)
@@ -617,7 +635,11 @@ def run(ctx, proof):
                 if len(ctx.samples) < 6 and steps:
                     ctx.sample({"history": [n, lim, plus], "length": length, "first_terminal": steps[0]["terminal"][:6],
                                 "first_used": steps[0]["used"][:3], "save_at": save_at})
-    outs = run_driver_parallel(all_lines, jobs=12) if all_lines else []
+        timing[f"impl+oracle n={n},lim={lim}"] = round(_time.time() - _t0, 1)
+    _t0 = _time.time()
+    outs = run_model(all_lines) if all_lines else []
+    timing["model driver (all steps, 14 jobs)"] = round(_time.time() - _t0, 1)
+    ctx.coverage["timing_s"] = timing
     mism = []
     for i, (line, chk, out) in enumerate(zip(all_lines, all_checks, outs)):
         for x in compare_model([line], [chk], [out]):
